@@ -455,10 +455,16 @@ func (doc *T) derefRequestBody(r RequestBody, refNameResolver RefNameResolver, p
 func (doc *T) derefPaths(paths map[string]*PathItem, refNameResolver RefNameResolver, parentIsExternal bool) {
 	for _, name := range componentNames(paths) {
 		ops := paths[name]
+		// a reference to a path item of this very document
+		isLocalRef := !parentIsExternal && strings.HasPrefix(ops.Ref, "#/paths/")
 		// what hangs below a path item of an external document belongs to that document too
-		pathIsExternal := parentIsExternal || isExternalRef(ops.Ref, parentIsExternal)
-		// inline full operations
-		ops.Ref = ""
+		pathIsExternal := parentIsExternal || (!isLocalRef && isExternalRef(ops.Ref, parentIsExternal))
+		// inline full operations: a path item of another document cannot stay a reference. One of
+		// this document can, and has to when it closes a cycle (a path item reached again through
+		// a callback of its own operations), which has no inline form
+		if !isLocalRef {
+			ops.Ref = ""
+		}
 
 		for _, param := range ops.Parameters {
 			isExternal := doc.addParameterToSpec(param, refNameResolver, pathIsExternal)
